@@ -282,6 +282,10 @@ SPELLINGS = {
 }
 
 
+_UNCACHED_SPELLINGS = {'list', 'abcMutableSequence', 'abcSequence', 'tuplevar', 'deque', 'set', 'abcMutableSet', 'frozenset', 'abcSet',
+                       'tuple', 'lit', 'dict', 'abcMapping', 'abcMutableMapping', 'collections'}
+
+
 def _mk_sub(ty):
     base = _SUB_BASES[ty.x['base']]
     return type(f"My{base.__name__.title()}{next(_serial)}", (base,), {})
@@ -320,17 +324,22 @@ def py_class(ty: Ty):
     return ty._obj
 
 
-def build(ty: Ty, rng=None, lit_ok=True):
+def build(ty: Ty, rng=None, lit_ok=True, uncached=False):
     """
     Build a Python type object for `ty`. `rng` (random.Random or None) chooses among equivalent
     spellings at every node; None gives the canonical spelling. Every call creates fresh alias
     objects (class-like nodes keep their cached class).
     """
     def pick(options):
+        if uncached:
+            # spellings whose alias objects typing does not cache (PEP 585 / collections.abc generics): their
+            # arguments keep the order they were written in
+            safe = [o for o in options if o in _UNCACHED_SPELLINGS]
+            options = safe or options
         return options[0] if rng is None else rng.choice(options)
 
     def sub(c, lit=False):
-        return build(c, rng, lit_ok=lit)
+        return build(c, rng, lit_ok=lit, uncached=uncached)
 
     k = ty.k
     if k == 'int': return int
@@ -406,18 +415,18 @@ def build(ty: Ty, rng=None, lit_ok=True):
                     'abcMapping': lambda: collections.abc.Mapping[kk, vv],
                     'abcMutableMapping': lambda: collections.abc.MutableMapping[kk, vv]}[s]()
         if res == 'OrderedDict':
-            return t.OrderedDict[kk, vv] if pick((0, 1)) == 0 else collections.OrderedDict[kk, vv]
+            return t.OrderedDict[kk, vv] if pick(('typing', 'collections')) == 'typing' else collections.OrderedDict[kk, vv]
         if res == 'defaultdict':
-            return t.DefaultDict[kk, vv] if pick((0, 1)) == 0 else collections.defaultdict[kk, vv]
+            return t.DefaultDict[kk, vv] if pick(('typing', 'collections')) == 'typing' else collections.defaultdict[kk, vv]
         raise ValueError(res)
     if k == 'counter':
         kk = sub(ty.a[0])
-        return t.Counter[kk] if pick((0, 1)) == 0 else collections.Counter[kk]
+        return t.Counter[kk] if pick(('typing', 'collections')) == 'typing' else collections.Counter[kk]
     if k == 'struct':
         return {n: sub(c, lit=True) for n, c in zip(ty.x['keys'], ty.a)}
     if k == 'union':
         ms = [sub(c) for c in ty.a]
-        s = pick(SPELLINGS['union'])
+        s = 'flat' if uncached else pick(SPELLINGS['union'])
         obj = None
         if s == 'nested' and len(ms) >= 3:
             cut = 1 if rng is None else rng.randrange(1, len(ms) - 1)
